@@ -74,7 +74,7 @@ ASSUMPTIONS = [
     'RAND/RANDBETWEEN: the seam replaces mathtrig.random (module or function) and, if present, the module '
     'attributes randint/randrange; random() answers {0, 2^-53, 0.5, 1-2^-53,...}, randint/randrange answer '
     'every integer of the requested range in turn. Only the range/type is demanded, not that the result '
-    'equals the source answer. RANDBETWEEN: integer a <= b only; an integral float result is accepted. If '
+    'equals the source answer. RANDBETWEEN: a <= b only (integers, plus 9 fractional pairs; when [a,b] holds no integer an error is demanded); an integral float result is accepted. If '
     'the attribute is missing the check degrades to one evaluation per case on the real source (type/range '
     'only) and says so in the outcome classes (no-seam)',
 ]
@@ -964,6 +964,8 @@ class RandBetween(Sub):
         top = 4 if tier == 'quick' else 8
         pairs = [[a, b] for a in range(-top, top + 1) for b in range(a, top + 1)]
         pairs += [[999999, 1000003], [-2147483650, -2147483646], [0, 9]]
+        # fractional bounds: the integers of [a,b] are ceil(a)..floor(b); none at all -> an error, never a number outside
+        pairs += [[0.5, 2.5], [-2.5, 2.5], [1, 2.5], [1.5, 3], [-2.5, -1], [-1.5, -0.5], [0.5, 0.9], [-1.5, -1.2], [2.25, 2.75]]
         for form in ('v', 'l'):
             for a, b in pairs:
                 yield [form, a, b, 'q' if tier == 'quick' else 't']
@@ -978,15 +980,19 @@ class RandBetween(Sub):
 
     def verdict(self, form, a, b, r, j, out, env, src):
         v = number_of(env, out)
-        ok = v is not None and not isinstance(v, bool) and float(v).is_integer() and a <= v <= b
+        if math.ceil(a) > math.floor(b):
+            ok = out[0] == 'e'
+        else:
+            ok = v is not None and not isinstance(v, bool) and float(v).is_integer() and a <= v <= b
         if ok:
             return None
         how = ('' if src is None or not src.calls else
                ' (source: %s; random() answers %r, integer requests answer element %d)' % (
                    ', '.join(src.calls[:3]), r, j))
         f = 'RANDBETWEEN(%s,%s)' % (a, b)
-        return fail('%s%s: expected an integer in [%d,%d], got %s' % (f, how, a, b, short(out)),
-                    'integer in [%d,%d]' % (a, b), out, case=['one', form, a, b, r, j])
+        return fail('%s%s: expected an integer in [%r,%r]%s, got %s' % (
+            f, how, a, b, ' (there is none: an error)' if math.ceil(a) > math.floor(b) else '', short(out)),
+            'integer in [%r,%r]' % (a, b), out, case=['one', form, a, b, r, j])
 
     def check(self, env, case):
         if case[0] == 'one':
